@@ -176,6 +176,10 @@ impl Findings {
     }
     false
   }
+  /// The witness recorded for a finding (re-executed on every run: information only).
+  pub fn witness(&self, key: &str) -> Option<Value> {
+    self.raw.get("findings")?.as_array()?.iter().find(|f| f.get("key").and_then(|k| k.as_str()) == Some(key))?.get("witness").cloned()
+  }
   pub fn describe(&self, key: &str) -> String {
     if let Some(arr) = self.raw.get("findings").and_then(|f| f.as_array()) {
       for f in arr {
